@@ -5,7 +5,8 @@ ROOT = os.path.dirname(os.path.dirname(os.path.abspath(__file__)))
 sys.path.insert(0, os.path.join(ROOT, 'tools'))
 from props_cfg import PROPS as ALLPROPS, NOT_CLAIMED
 # only verticals the integrator has reviewed and marked ready are claimed
-PROPS = {k: v for k, v in ALLPROPS.items() if v.get('ready')}
+READY = set(open(os.path.join(ROOT, 'tools', 'ready.txt')).read().split())
+PROPS = {k: v for k, v in ALLPROPS.items() if k in READY}
 props = [json.loads(l) for l in open(os.path.join(ROOT, 'properties.jsonl'))]
 commits = subprocess.run(['git', '-C', '/repo', 'log', '--format=%H %s'], stdout=subprocess.PIPE).stdout.decode().split('\n')
 hook_commits = [c.split(' ')[0] for c in commits if ' verif hooks:' in ' ' + c]
